@@ -512,3 +512,22 @@ Proof.
   split; [reflexivity|].
   exists [LReg 0], [AInt 5], 3. vm_compute. discriminate.
 Qed.
+
+(* ---- defaults (Core/Disj.v): a default is not an implication ---------------------------- *)
+(* trimv3.go tests specificity "with defaults applied on both sides" (subsumeProfile): the concrete
+   value 2 counts as implied by the conjunct [*2 | int].  That is a sound reason to drop [2] only
+   if no other conjunct carries a different default: with [*1 | int] present as well, the package
+   resolves to 2 with the data and is ambiguous without it (known finding F11, reproduced on the
+   implementation by corpus/C20/explore/f11_conflicting_defaults.txt). *)
+From Verif Require Import Core.Disj.
+
+Theorem default_is_not_implication :
+  exists labs atoms fuel (c : expr) (d1 d2 : disj),
+    resolve (pair_of labs atoms fuel [c] [d2]) = resolve (pair_of labs atoms fuel [] [d2]) /\
+    resolve (pair_of labs atoms fuel [c] [d1; d2]) <> resolve (pair_of labs atoms fuel [] [d1; d2]).
+Proof.
+  exists [LReg 0], [AInt 1; AInt 2; AInt 3], 3, (EScalar (SAtom (AInt 2))),
+         [(true, EScalar (SAtom (AInt 1))); (false, EScalar (SKind KInt))],
+         [(true, EScalar (SAtom (AInt 2))); (false, EScalar (SKind KInt))].
+  split; vm_compute; [reflexivity | discriminate].
+Qed.
